@@ -3,12 +3,19 @@
 # Every generated (template, data) pair is rendered by the real engine in processes of its own: in one
 # process as the very first render, again on the same engine, on a second engine, then - after a HISTORY
 # of other renders (other templates, the same template with other data, on any of three engine
-# instances) - on a third engine, with freshly built equal data, and on an engine created only then; and
-# once in each of three more processes that render nothing else (own map hash seeds).  The harness
-# deep-compares the caller's data with a pristine copy after the renders.  The judge (Run/Judge_C07.v)
-# demands that all outputs are byte-identical and the data untouched, and - where a model covers the
-# template - that they equal its prediction: Models/Purity.v for the 12 order-sensitive shapes, the
-# executor model (Pug.Compile + Tmpl.Exec) for the templates given as pug trees.
+# instances) - on a third engine, with freshly built equal data, on an engine created only then, on an
+# engine whose template directory holds the template ALONE and on an engine whose directory lists the
+# template and its SIBLINGS in the other order; and once in each of three more processes that render
+# nothing else (own map hash seeds; one per directory layout).  The harness deep-compares the caller's
+# data with a pristine copy after the renders.
+# What Engine.Render returns is an io.Reader - "the output" is what the caller reads from it, whenever it
+# reads it.  Besides the renders read at once the harness KEEPS results: the reader stays unread (or
+# partly read) while the process goes on rendering (same pair, other data, other templates, same and
+# other engines) and is read when everything is over, in several orders.
+# The judge (Run/Judge_C07.v) demands that all outputs are byte-identical and the data untouched, and -
+# where a model covers the template - that they equal its prediction: Models/Purity.v for the 12
+# order-sensitive shapes, the executor model (Pug.Compile + Tmpl.Exec, run on the template ALONE) for the
+# templates given as pug trees.
 #
 # Template families:
 #   shapes   the 12 order-sensitive sites (each / &attributes / JSON.stringify / Object.keys / ...)
@@ -17,6 +24,13 @@
 #            values taken from the data, then enumerated / serialised / read at keys this render may not have set
 #   free     statement lists mutating data-derived objects, literals, $global, variables read before they are
 #            set, mixin definitions and calls (also a call without a definition in this template)
+#   mix      PAGE-LOCAL MIXINS: the template defines 1-3 mixins under everyday names (item, row, card, ...),
+#            calls them with arguments, attributes and blocks taken from the data - and sometimes calls a
+#            name it does not define
+# SIBLINGS = template files of the same engine directory (same directory as the rendered template,
+# sub-directories, the parent directory) that are never rendered: they define mixins of the SAME names
+# with other bodies and parameters, call mixins with blocks, switch doctype / raw text mode - everything
+# a translator carries from one file to the next if it is not created per file.
 # The point of acc / free together with the HISTORY: whatever a render leaves behind anywhere in the process
 # (engine, package-level variable, pool, cache) and a later render picks up makes r3..r5 differ from r0 and
 # from the single-render processes.
@@ -27,7 +41,9 @@ from common import *
 import tmpl
 
 FRESH_PROCESSES = 3
-FULL_RENDERS = 6          # r0..r5 of harness/c07.go
+FULL_RENDERS = 8          # r0..r7 of harness/c07.go
+N_ENGINES = 6             # e1 e2 e3, the late engine, the engine over t alone, the engine over the other listing order
+ENGINE_ALONE = 4
 
 # ------------------------------------------------------------------ data
 # ('nil',) ('bool',b) ('int',n) ('str',bytes) ('arr',[v]) ('strs',[bytes]) ('ints',[n])
@@ -356,6 +372,11 @@ def shape_nodes(sh):
         return [code("m.k = 1"), code("JSON.stringify(m)", True, False)]
     if k == "objassign":
         return [code("var u = Object.assign(m, o)"), code("JSON.stringify(m)", True, False)]
+    if k == "itag":
+        # pug's `#{tg} b`: a tag whose name is computed - the one place where the translator decides about
+        # escaping BEFORE it has seen a code node of this file (no model covers it: judged by the oracle alone)
+        return [{"type": "InterpolatedTag", "expr": "tg", "isInline": False, "selfClosing": False, "attrs": [],
+                 "attributeBlocks": [], "block": block([text("b")])}, code("title", True, True)]
     raise ValueError(sh)
 
 
@@ -366,7 +387,7 @@ def shape_coq(sh):
              "setkey": b"ShSetKey", "objassign": b"ShObjAssign"}
     if k == "var":
         return b"(Some (ShVar " + cq_bytes(sh[1]) + b"))"
-    if k in ("free", "acc"):
+    if k in TREE_FAMILIES or k == "itag":
         return b"None"
     return b"(Some " + names[k] + b")"
 
@@ -579,9 +600,189 @@ def acc_nodes(rng):
     return nodes
 
 
+# ---- mix: page-local mixins.  What a call renders is decided by the definitions of THIS file alone.
+MIXIN_NAMES = ["item", "row", "card", "badge", "mx"]
+MIXIN_PARAMS = ["label", "n"]
+
+
+def mixin_body(rng, params, marker):
+    """body of a mixin definition; `marker` tells the definitions of different files apart"""
+    body = [t_text(marker)]
+    for p_ in params:
+        if rng.random() < 0.8:
+            body.append(t_print(I(p_), True, True))
+            body.append(t_text(";"))
+    r = rng.random()
+    if r < 0.35:
+        body.append(t_tag(rng.choice(["i", "li", "b"]), ablocks=["attributes"], body=[t_text(marker.lower())]))
+    elif r < 0.5:
+        body.append(t_print(D(I('attributes'), 'x'), True, True))
+    elif r < 0.6:
+        body.append(t_print(D(items_, 'length'), True, True))
+    if rng.random() < 0.35:
+        body.append(t_text("("))
+        body.append(('mixinblock',))
+        body.append(t_text(")"))
+    return body
+
+
+def mixin_def(rng, name, marker):
+    params = rng.choice([[], ["label"], ["label"], ["label", "n"], ["n"]])
+    return ('mixin', name, list(params), mixin_body(rng, params, marker))
+
+
+def mixin_call(rng, name, nparams=None):
+    argpool = [S('x'), D(m_, 'a'), D(items_, 'length'), I('title'), I('foo'), N(7), ('idx', items_, N(0)), D(o_, 'k')]
+    n = rng.choice([0, 1, 1, 2]) if nparams is None else nparams
+    args = [rng.choice(argpool) for _ in range(n)]
+    attrs = [(a, rng.choice([S(str(i)), D(items_, 'length'), S('v')]), True)
+             for i, a in enumerate(rng.sample(["x", "y", "id", "c"], rng.choice([0, 0, 1, 2])))]
+    blk = [t_text(rng.choice(["blk", "B", "<b>"]))] if rng.random() < 0.3 else []
+    return ('call', name, args, attrs, blk)
+
+
+def mix_nodes(rng):
+    names = rng.sample(MIXIN_NAMES, rng.randint(1, 3))
+    marker = rng.choice("ABCDEFGH") + str(rng.randint(0, 9)) + ":"
+    nodes, arity = [], {}
+    for nm in names:
+        d = mixin_def(rng, nm, marker + nm[:1])
+        arity[nm] = len(d[2])
+        nodes.append(d)
+    for _ in range(rng.randint(1, 4)):
+        r = rng.random()
+        if r < 0.62:
+            nm = rng.choice(names)
+            nodes.append(mixin_call(rng, nm, arity[nm] if rng.random() < 0.85 else None))
+        elif r < 0.72:
+            # a name this file does not define: renders nothing, whatever other files define under it
+            rest = [x for x in MIXIN_NAMES if x not in names]
+            if rest:
+                nodes.append(mixin_call(rng, rng.choice(rest)))
+        elif r < 0.84:
+            nm = rng.choice(names)
+            nodes.append(('each', 'v', 'k', items_, [('call', nm, [I('v'), I('k')][:arity[nm]], [], [])]))
+        elif r < 0.92:
+            nodes.append(t_tag("ul", body=[mixin_call(rng, rng.choice(names))]))
+        else:
+            nodes.append(rng.choice(FREE_PRINTS[:11]))
+    if not any(n[0] in ('call', 'each', 'tag') for n in nodes):
+        nodes.append(mixin_call(rng, names[0], arity[names[0]]))
+    return nodes
+
+
+def tree_mixin_names(nodes, acc=None):
+    """names of the mixins a pug tree defines or calls"""
+    acc = [] if acc is None else acc
+    for n in nodes:
+        k = n[0]
+        if k in ('mixin', 'call'):
+            if n[1] not in acc:
+                acc.append(n[1])
+            tree_mixin_names(n[3] if k == 'mixin' else n[4], acc)
+        elif k == 'tag':
+            tree_mixin_names(n[5], acc)
+        elif k == 'each':
+            tree_mixin_names(n[4], acc)
+        elif k == 'cond':
+            tree_mixin_names(n[2], acc)
+    return acc
+
+
+def sibling_nodes(rng, names):
+    """a template that is never rendered: what it defines must not reach the rendered template.  `names` = the
+    mixin names the rendered template defines or calls"""
+    marker = "S" + str(rng.randint(0, 99)) + ":"
+    nodes = []
+    if rng.random() < 0.3:
+        nodes.append(('doctype', rng.choice(["html", "xml", "transitional", "strict", "1.1"])))
+    pool = list(names) + [x for x in rng.sample(MIXIN_NAMES, 2) if x not in names]
+    rng.shuffle(pool)
+    for nm in pool[:rng.randint(1, max(1, len(pool)))]:
+        nodes.append(mixin_def(rng, nm, marker + nm[:1].upper()))
+    for _ in range(rng.randint(0, 3)):
+        r = rng.random()
+        if r < 0.5:
+            nm = rng.choice(pool)
+            c = mixin_call(rng, nm)
+            if rng.random() < 0.5:      # a call with a block: the translator numbers these
+                c = c[:4] + ([t_text("sb"), t_print(D(m_, 'a'))],)
+            nodes.append(c)
+        elif r < 0.7:
+            # raw text mode: the content of script / style elements
+            nodes.append(t_tag(rng.choice(["script", "style"]), body=[t_text("var a = '<&>';")]))
+        elif r < 0.85:
+            nodes.append(rng.choice(FREE_PRINTS[:11]))
+        else:
+            nodes.append(t_stmt(rng.choice(FREE_STMTS[:16])))
+    if rng.random() < 0.25:
+        rng.shuffle(nodes)
+    if rng.random() < 0.4:
+        # the last code node of the file is an unescaped one (raw mode when the translator leaves the file)
+        nodes.append(rng.choice([t_print(JSONS(m_), False), t_print(I('title'), False), t_print(JSONS(items_), False)]))
+    return nodes
+
+
+def g_siblings(rng, tree, tdir, always):
+    """0-3 sibling files: in the rendered template's directory, in a sub-directory of it, in another directory"""
+    if not always and rng.random() < 0.45:
+        return {}
+    names = tree_mixin_names(tree) if tree is not None else []
+    sibs = {}
+    for i in range(rng.choice([1, 1, 2, 2, 3])):
+        r = rng.random()
+        here = tdir + "/" if tdir else ""
+        if r < 0.6:
+            path = here + "s%d" % i
+        elif r < 0.8:
+            path = here + "d%d/s%d" % (i, i)
+        elif tdir:
+            path = "s%d" % i            # the parent directory of the rendered template's directory
+        else:
+            path = "e%d/s%d" % (i % 2, i)
+        sibs[path] = {"tree": sibling_nodes(rng, names)}
+    return sibs
+
+
+# ---- results that are read later
+def g_hold(rng, p_hold):
+    """(hold, pre): 0 = the result is read at once; 1 = kept unread; 2 = the first `pre` bytes at once, the rest kept"""
+    r = rng.random()
+    if r >= p_hold:
+        return 0, 0
+    if r < p_hold * 0.75:
+        return 1, 0
+    return 2, rng.choice([1, 2, 5, 16])
+
+
+def g_late(rng, tier, data, others):
+    """the renders after r7: renders of the pair whose result is kept unread, and after each of them renders
+    that differ from it (other data, other templates) on the same and on other engines"""
+    r = rng.random()
+    n = 0 if r < 0.15 else rng.randint(1, 3) if r < 0.7 else rng.randint(4, 8)
+    late = []
+    for _ in range(n):
+        r = rng.random()
+        if r < 0.4:
+            h, pre = g_hold(rng, 0.85)
+            late.append({"pair": True, "on": rng.randrange(N_ENGINES), "hold": h, "pre": pre})
+        else:
+            other_tpl = bool(others) and rng.random() < 0.5
+            name = rng.choice(sorted(others)) if other_tpl else "t"
+            on = rng.choice([0, 1, 2, 3, 5]) if other_tpl else rng.randrange(N_ENGINES)
+            h, pre = g_hold(rng, 0.5)
+            late.append({"render": name, "data": data if other_tpl and rng.random() < 0.5 else g_data(rng, tier),
+                         "on": on, "hold": h, "pre": pre})
+    # a kept result of the pair is followed by at least one render of something else
+    kept = [i for i, x in enumerate(late) if x.get("pair") and x["hold"]]
+    if kept and all(x.get("pair") for x in late[kept[-1] + 1:]):
+        late.append({"render": "t", "data": g_data(rng, tier), "on": late[kept[-1]]["on"], "hold": 0, "pre": 0})
+    return late
+
+
 SHAPES = ["each", "attrs", "json", "keys", "forin", "var", "keys_each", "assign_each", "push", "sort", "setkey",
           "objassign"]
-TREE_FAMILIES = ("acc", "free")
+TREE_FAMILIES = ("acc", "free", "mix")
 
 
 def ast(nodes):
@@ -606,10 +807,12 @@ def top_names(data):
 
 def g_other(rng):
     r = rng.random()
-    if r < 0.4:
+    if r < 0.35:
         return {"tree": acc_nodes(rng)}
-    if r < 0.8:
+    if r < 0.7:
         return {"tree": free_nodes(rng)}
+    if r < 0.82:
+        return {"tree": mix_nodes(rng)}
     return shape_nodes((rng.choice(["each", "attrs", "json", "keys_each", "assign_each", "push", "sort", "setkey",
                                     "objassign"]),))
 
@@ -627,15 +830,19 @@ def g_history(rng, tier, data, others, stateful):
     for _ in range(n):
         name = "t" if (not others or rng.random() < (0.5 if stateful else 0.25)) else rng.choice(sorted(others))
         pdata = data if rng.random() < (0.2 if stateful else 0.5) else g_data(rng, tier)
-        hist.append({"render": name, "data": pdata, "on": rng.randint(0, 2)})
+        h, pre = g_hold(rng, 0.3 if n <= 12 else 0.1)
+        hist.append({"render": name, "data": pdata, "on": rng.randint(0, 2), "hold": h, "pre": pre})
     return hist
 
 
 def g_case(rng, tier):
     data = g_data(rng, tier)
     r = rng.random()
-    if r < 0.52:
-        k = rng.choice(SHAPES)
+    if r < 0.42:
+        k = rng.choice(SHAPES + ["itag", "itag"])
+        if k == "itag":
+            top = data[1][1] if data[0] == 'ptr' else data[1]
+            top.append(("tg", ('str', rng.choice([b"a&b", b"x<y", b"p", b"q\"r", b"i>j", b"e&m"]))))
         if k == "var":
             names = top_names(data)
             x = rng.choice(names)
@@ -645,12 +852,15 @@ def g_case(rng, tier):
         else:
             sh = (k,)
         entry = shape_nodes(sh)
-    elif r < 0.80:
+    elif r < 0.65:
         sh = ("acc",)
         entry = {"tree": acc_nodes(rng)}
-    else:
+    elif r < 0.82:
         sh = ("free",)
         entry = {"tree": free_nodes(rng)}
+    else:
+        sh = ("mix",)
+        entry = {"tree": mix_nodes(rng)}
     if sh[0] in TREE_FAMILIES and rng.random() < 0.85:
         data = lower_nested(data)
     files = {"t": entry}
@@ -660,14 +870,46 @@ def g_case(rng, tier):
         others["p%d" % i] = g_other(rng)
     prefix = g_history(rng, tier, data, others, sh[0] in TREE_FAMILIES)
     files.update(others)
-    return {"shape": list(sh), "nodes": files, "data": data, "prefix": prefix}
+    # where the rendered template lives, and the files around it that are never rendered
+    tdir = "sub" if rng.random() < 0.2 else ""
+    siblings = g_siblings(rng, tpl_tree(entry), tdir, sh[0] in ("mix", "itag") or tree_has_mixin(entry))
+    late = g_late(rng, tier, data, others)
+    hold_first = rng.random() < 0.6
+    if hold_first and not late and not any(p["data"] != data or p["render"] != "t" for p in prefix):
+        # the kept result must see a render of something else before it is read
+        late = [{"render": "t", "data": g_data(rng, tier), "on": 0, "hold": 0, "pre": 0}]
+    return {"shape": list(sh), "nodes": files, "data": data, "prefix": prefix, "tdir": tdir, "siblings": siblings,
+            "late": late, "hold_first": hold_first, "t_first": rng.random() < 0.5,
+            "read_seed": rng.choice([0, 1, 1, rng.randint(2, 10 ** 6), rng.randint(2, 10 ** 6)]),
+            "read_step": rng.choice([0, 0, 0, 0, 1, 3, 7, 64])}
+
+
+def tree_has_mixin(entry):
+    tree = tpl_tree(entry)
+    return tree is not None and bool(tree_mixin_names(tree))
+
+
+def t_path(case):
+    return (case.get("tdir") or "") + ("/" if case.get("tdir") else "") + "t"
+
+
+def req_go(case, p):
+    if p.get("pair"):
+        return {"pair": True, "on": p.get("on", 0), "hold": p.get("hold", 0), "pre": p.get("pre", 0)}
+    name = t_path(case) if p["render"] == "t" else p["render"]
+    return {"render": hx(name), "data": d_go(tuplify(p["data"])), "on": p.get("on", 2), "hold": p.get("hold", 0),
+            "pre": p.get("pre", 0)}
 
 
 def to_harness(case):
-    return {"files": {hx(n): hx(ast(tpl_ast(v))) for n, v in case["nodes"].items()}, "render": hx("t"),
-            "data": d_go(tuplify(case["data"])), "single": False, "fresh": FRESH_PROCESSES,
-            "prefix": [{"render": hx(p["render"]), "data": d_go(tuplify(p["data"])), "on": p.get("on", 2)}
-                       for p in case["prefix"]]}
+    tp = t_path(case)
+    return {"files": {hx(tp if n == "t" else n): hx(ast(tpl_ast(v))) for n, v in case["nodes"].items()},
+            "siblings": {hx(n): hx(ast(tpl_ast(v))) for n, v in case.get("siblings", {}).items()},
+            "render": hx(tp), "data": d_go(tuplify(case["data"])), "single": False, "fresh": FRESH_PROCESSES,
+            "prefix": [req_go(case, p) for p in case["prefix"]],
+            "late": [req_go(case, p) for p in case.get("late", [])],
+            "hold_first": bool(case.get("hold_first")), "t_first": bool(case.get("t_first")),
+            "read_seed": case.get("read_seed", 0), "read_step": case.get("read_step", 0)}
 
 
 def tuplify(v):
@@ -741,10 +983,19 @@ def jsonable(v):
     raise ValueError(v)
 
 
+def req_json(p):
+    if p.get("pair"):
+        return {"pair": True, "on": p.get("on", 0), "hold": p.get("hold", 0), "pre": p.get("pre", 0)}
+    return {"render": p["render"], "data": jsonable(tuplify(p["data"])), "on": p.get("on", 2),
+            "hold": p.get("hold", 0), "pre": p.get("pre", 0)}
+
+
 def case_json(case):
     c = {"shape": case["shape"], "nodes": case["nodes"], "data": jsonable(tuplify(case["data"])),
-         "prefix": [{"render": p["render"], "data": jsonable(tuplify(p["data"])), "on": p.get("on", 2)}
-                    for p in case["prefix"]]}
+         "prefix": [req_json(p) for p in case["prefix"]], "tdir": case.get("tdir", ""),
+         "siblings": case.get("siblings", {}), "late": [req_json(p) for p in case.get("late", [])],
+         "hold_first": bool(case.get("hold_first")), "t_first": bool(case.get("t_first")),
+         "read_seed": case.get("read_seed", 0), "read_step": case.get("read_step", 0)}
     return json.loads(json.dumps(c))      # exactly what a replay file holds (tuples become lists)
 
 
@@ -775,45 +1026,87 @@ class C07(Prop):
     sizes = {"quick": 300, "thorough": 5000}
     shard = 100
     design_ref = "DESIGN.md section 6 C07, section 7 F-C05-c / F-C07-b"
-    rule = ("(template, data) pairs. Templates: 52% one of 12 order-sensitive shapes modelled by Models/Purity.v (each k,v / "
+    rule = ("(template, data) pairs. Templates: 36% one of 12 order-sensitive shapes modelled by Models/Purity.v (each k,v / "
             "&attributes / JSON.stringify / Object.keys / for-in / top-level name / Object.keys then each / Object.assign "
-            "into an ordered literal then each / push / sort / x.k = v / Object.assign); 28% 'acc' = state built during "
+            "into an ordered literal then each / push / sort / x.k = v / Object.assign); 6% 'itag' = a tag with a computed "
+            "name (#{tg}, tg a string with or without & < > \") as the first node - where the translator decides about "
+            "escaping before it has seen a code node of the file; judged by the oracle alone; 23% 'acc' = state built during "
             "the render: an object or array created by a literal ({} / {zz: 1} / {a: 'x', k: 2} / Object.assign({}, o) / "
             "[] / ['u'], or - 14% of acc - the $global object every render starts with) is filled inside 1-2 each-loops over items / m / o / Object.keys(m) (acc[v] = true, acc[v] = k + '', "
             "acc[k] = [v], acc[k] = v ? v : 0, acc['p' + v] = 1, acc.last = v, acc.push(v), acc.unshift(v), 25% under a "
             "condition on v or k) and under a condition on the data, optionally "
             "nested into a second literal, then enumerated (each k,v), serialised (JSON.stringify, String()), listed "
-            "(Object.keys / join / length) or read at keys the render may not have set (acc.zz, acc.flag, acc.a); 20% "
+            "(Object.keys / join / length) or read at keys the render may not have set (acc.zz, acc.flag, acc.a); 17% "
             "'free' statement lists (push, pop, shift, unshift, sort, splice, slice, member and index assignment, "
-            "Object.assign, literals {} [] filled from the data, $global, variable shadowing, mixin attributes). acc and "
-            "free are pug trees judged by the oracle and predicted by the executor model (Pug.Compile + Tmpl.Exec; it "
+            "Object.assign, literals {} [] filled from the data, $global, variable shadowing, mixin attributes); 18% 'mix' = "
+            "page-local mixins: 1-3 definitions under the names item / row / card / badge / mx (0-2 parameters; body = a "
+            "marker text, the parameters, &attributes on a tag or attributes.x or items.length, optionally the block) and "
+            "1-4 calls with arguments, attributes and blocks from the data (inside each-loops and tags; 10% of them call a "
+            "name the file does NOT define). acc, free and mix "
+            "are pug trees judged by the oracle and predicted by the executor model run on the template ALONE (Pug.Compile + Tmpl.Exec; it "
             "declines use-before-definition, execution errors and data in which two key names differ only in the case "
-            "of the first letter - for 85% of the acc/free cases the keys below the top level are lower-cased). "
+            "of the first letter - for 85% of the acc/free/mix cases the keys below the top level are lower-cased). "
             "Data: Go map[string]interface{}, map[string]string, map[string]int, map[int]string, []interface{}, "
             "[]string, []int, structs, pointers to structs, slices and maps, 0-48 keys (more than 8: several hash "
-            "buckets), first-letter case collisions among keys (Foo/foo, A/a, Key/key). Every case runs in 4 processes "
+            "buckets), first-letter case collisions among keys (Foo/foo, A/a, Key/key). "
+            "SIBLINGS: the rendered template is the file t (20%: sub/t) of template/page; every mix and itag case, every case "
+            "whose template uses a mixin and 55% of the others get 1-3 sibling files that are never rendered - 60% in "
+            "the template's directory, 20% in a sub-directory of it, 20% in its parent / another directory - each defining "
+            "1-5 mixins, first of all the names the template defines or calls, with OTHER bodies and parameter lists, "
+            "plus calls with blocks, script/style elements, doctypes, prints and statements, 40% ending in an unescaped "
+            "code node (the translator leaves the file in raw mode); the 0-3 "
+            "templates of the history (35% acc, 35% free, 12% mix, 18% shapes) are siblings too. Three directory layouts "
+            "per case: MAIN (template + history templates + siblings), ALONE (the template and nothing else), OTHER (the "
+            "files of MAIN listed in the other order: in one of the two the template's entry comes before every sibling "
+            "entry in os.File.Readdir, in the other after - the harness creates the files in the matching order and "
+            "renames sibling entries until the listing it reads back says so; a run in which fewer than 80% of the "
+            "cases with siblings got both orders is a check error). "
+            "Every case runs in 4 processes "
             "of its own (the harness re-executes itself per case: nothing is shared between cases, a replay is "
-            "self-contained): process 1 renders the pair 6 times - r0 as the first render of the process' life, r1 again "
+            "self-contained): process 1 renders the pair 8 times and reads each result at once - r0 as the first render of the process' life, r1 again "
             "on the same engine, r2 on a second engine instance, then the HISTORY, r3 on a third engine, r4 with freshly "
-            "built equal data on the first engine, r5 on an engine created only then; processes 2-4 render the pair "
-            "exactly once. HISTORY = 0-60 renders (acc/free: 10% none, 68% 1-4, 17% 5-12, 5% 15-25 quick / 15-60 "
-            "thorough; shapes: 0-12) of the same template with OTHER data (acc/free: half of the entries, 80% of those "
-            "with fresh random data) or of 0-3 other templates (40% acc, 40% free, 20% shapes) over the same variable "
-            "names, each on a randomly chosen one of the three engine instances. A process the Go runtime kills (stack "
-            "exhaustion on a self-referential object, ...) is observed as class 'crash' for each of its renders. non-trivial = acc / free / mutating "
+            "built equal data on the first engine, r5 on an engine created only then, r6 on an engine over ALONE, r7 on an "
+            "engine over OTHER; processes 2-4 render the pair "
+            "exactly once, over MAIN, ALONE and OTHER. HISTORY = 0-60 renders (acc/free/mix: 10% none, 68% 1-4, 17% 5-12, 5% 15-25 quick / 15-60 "
+            "thorough; shapes: 0-12) of the same template with OTHER data (acc/free/mix: half of the entries, 80% of those "
+            "with fresh random data) or of the other templates over the same variable "
+            "names, each on a randomly chosen one of the three engine instances. "
+            "KEPT RESULTS (Render returns an io.Reader; the output is what the caller reads, whenever it reads): in 60% of "
+            "the cases the pair is rendered once more right after r0 and that reader is read LAST of all; 30% of the "
+            "history renders (10% in long histories) and, after r7, a LATE phase of 0-8 renders (85%: 1-8; 40% the pair on any of the 6 engines - 85% "
+            "of them kept -, 60% the same template with other data or another template, half of them kept; a kept result "
+            "of the pair is always followed by a render of something else) keep their reader unread - a quarter of the "
+            "kept ones after reading the first 1/2/5/16 bytes - while the process goes on rendering; when all renders are "
+            "over the kept readers are read oldest first (20%) / newest first (40%) / in a pseudo-random permutation (40%), "
+            "each to its end or (50%) round-robin 1/3/7/64 bytes at a time. Kept results of the pair are judged with "
+            "r0..r7; every other kept render is repeated at the end with freshly built equal data, read at once, and the "
+            "two outputs must be equal. A process the Go runtime kills (stack "
+            "exhaustion on a self-referential object, ...) is observed as class 'crash' for each of its renders. non-trivial = acc / free / mix / mutating "
             "shape, or the rendered map-like value has at least 2 keys; distinct by SHA-1 of the case")
     trusted = [
         "the Go map iteration oracle pi of the theorems is an arbitrary function returning a permutation of the "
         "entries it is given (Section hypothesis perm_oracle); the runtime's real iteration orders are sampled by "
-        "the correspondence check (9 renders per case, 4 processes)",
+        "the correspondence check (11 renders read at once per case, 4 processes)",
         "Template.execute / state.walk enter the history theorems as Section variables (new_exec, run_exec, output: "
         "arbitrary functions of the template and the converted data ALONE); that a render reads nothing else - no "
         "engine field, no package-level variable, pool or cache written by an earlier render in the process - is not "
         "proved but checked by the correspondence renders: r0 (nothing rendered before in the process) and the three "
-        "single-render processes against r1..r5 (after renders of the same and other templates with the same and "
+        "single-render processes against r1..r7 (after renders of the same and other templates with the same and "
         "other data on the same and other engine instances), on templates whose output exposes per-render state "
         "(objects built from literals, $global, variables, mixin attributes)",
-        "the executor model Pug.Compile + Tmpl.Exec (shared with C01-C06) predicts the acc / free templates from the "
+        "the translator (renderState: Parse + TokenToTemplate) enters C07_sibling_independent / "
+        "C07_listing_order_independent as an arbitrary function `translate` of ONE file (Models/Purity.v load); that "
+        "compileDir really gives every file a translator of its own - that nothing (mixin table, block counter, "
+        "doctype, raw mode, function table) is carried from one file to the next - is not proved but checked: the "
+        "engine over the template alone (r6, process 3) against engines over the template among siblings that define "
+        "the same mixin names differently, in both listing orders (r0-r5, r7, processes 2 and 4)",
+        "the result buffer enters C07_late_read_independent as a heap cell allocated by the render and never written "
+        "again (Models/Purity.v rstep); that the io.Reader Engine.Render returns does not share storage with anything "
+        "a later render writes is checked by the kept results (read after up to 60+8 further renders, in several orders)",
+        "the directory listing order is whatever os.File.Readdir returns on the file system of TMPDIR; the harness "
+        "reads it back with the same call and reports per layout whether the template came before / after all siblings "
+        "(distribution.listed_before_all_siblings_and_after_all_siblings)",
+        "the executor model Pug.Compile + Tmpl.Exec (shared with C01-C06) predicts the acc / free / mix templates from the "
         "template and the data alone; it starts every render from a heap holding only the converted data and an "
         "empty $global, and every literal allocates a new heap cell; `x[i] = e` is run as the call x.__assign(i, e) "
         "(the action text pugjs emits for both, Run/Judge_C07.v rw_node); its panics are not used as predictions",
@@ -825,12 +1118,22 @@ class C07(Prop):
     assumptions = ["perm_oracle pi: every map range visits each entry exactly once, in some order",
                    "a render's execution state is a function of (template, converted data) - Section variables "
                    "new_exec / run_exec / output of C07_history_independent, C07_engine_independent, "
-                   "C07_process_history_independent; sampled, not proved (see trusted)"]
+                   "C07_process_history_independent, C07_late_read_independent; sampled, not proved (see trusted)",
+                   "a compiled template is a function of its own file - variable translate of "
+                   "C07_sibling_independent / C07_listing_order_independent; sampled, not proved (see trusted)",
+                   "template names (paths below template/page) are pairwise distinct - NoDup hypothesis of "
+                   "C07_listing_order_independent"]
     not_yet_proved = [
         "that the Go executor keeps no state between renders (package-level variables, pools, caches) is outside "
         "the Coq development: the theorems quantify over an executor that is a function of template and data; the "
         "correspondence check samples it with histories of up to 60 renders per case",
-        "concurrent renders (two goroutines rendering at the same time) are not part of this check",
+        "that the Go translator is created per file and that the returned reader owns its bytes are modelled "
+        "(load, rstep) but not derived from the Go source; the variants load_shared / rstep_pooled are refuted "
+        "(C07_shared_translator_refuted, C07_pooled_buffer_refuted) and the real code is sampled by the sibling "
+        "layouts and the kept results",
+        "concurrent renders (two goroutines rendering at the same time) and RenderPartials (several results in one "
+        "map) are not part of this check; results are kept and read on one goroutine",
+        "debug mode (Engine.Debug: a filtered load per render) is not part of this check",
     ]
 
     def generate(self, rng, n, tier):
@@ -845,27 +1148,44 @@ class C07(Prop):
                                  json.dumps(cases[i])[:3000] + "\n" + o.get("msg", ""))
             if len(o["r"]) != FULL_RENDERS or len(o["fresh"]) != FRESH_PROCESSES:
                 raise BuildError("harness returned %d+%d renders (case %d)" % (len(o["r"]), len(o["fresh"]), i), "")
+            c = cases[i]
+            reqs = list(c["prefix"]) + list(c.get("late", []))
+            want_held = bool(c.get("hold_first")) + sum(1 for p in reqs if p.get("pair"))
+            want_pairs = sum(1 for p in reqs if not p.get("pair") and p.get("hold"))
+            if len(o["held"]) != want_held or len(o["pairs"]) != want_pairs:
+                raise BuildError("harness returned %d kept results of the pair and %d of other renders, expected %d "
+                                 "and %d (case %d)" % (len(o["held"]), len(o["pairs"]), want_held, want_pairs, i), "")
+        # the check claims both listing orders: say so if the file system does not give them
+        with_sibs = [o for c, o in zip(cases, obss) if c.get("siblings")]
+        both = sum(1 for o in with_sibs if (o["main"]["t_before_all"] and o["other"]["t_after_all"])
+                   or (o["main"]["t_after_all"] and o["other"]["t_before_all"]))
+        if len(with_sibs) >= 20 and both * 10 < len(with_sibs) * 8:
+            raise BuildError("the rendered template was listed before AND after its siblings in only %d of %d "
+                             "cases with siblings" % (both, len(with_sibs)), "")
         return obss
 
     @staticmethod
     def outs(obs):
-        return list(obs["r"]) + list(obs["fresh"])
+        return list(obs["r"]) + list(obs["fresh"]) + list(obs.get("held", []))
 
     def emit(self, case, obs):
         outs = [cq_opt(cq_bytes(unhx(r["out"]))) if r["class"] == "ok" else b"None" for r in self.outs(obs)]
         untouched = obs["untouched"] and obs["prefix_untouched"] and obs["fresh_untouched"]
+        ob = lambda r: cq_opt(cq_bytes(unhx(r["out"]))) if r["class"] == "ok" else b"None"
+        pairs = [cq_pair(ob(a), ob(b_)) for a, b_ in obs.get("pairs", [])]
         tree = tpl_tree(case["nodes"]["t"])
         return (b"{| c_shape := " + shape_coq(tuple(case["shape"])) +
                 b"; c_tmpl := " + cq_opt(None if tree is None else cq_list([tmpl.pug_coq(n) for n in tree])) +
                 b"; c_data := " + d_coq(tuplify(case["data"])) +
-                b"; c_outs := " + cq_list(outs) + b"; c_untouched := " + cq_bool(untouched) + b" |}")
+                b"; c_outs := " + cq_list(outs) + b"; c_pairs := " + cq_list(pairs) +
+                b"; c_untouched := " + cq_bool(untouched) + b" |}")
 
     def nontrivial(self, case, obs):
         d = tuplify(case["data"])
         if d[0] == 'ptr':
             d = d[1]
         m = dict(d[1]).get("m")
-        if case["shape"][0] in ("free", "acc", "push", "sort", "setkey", "objassign", "assign_each"):
+        if case["shape"][0] in ("free", "acc", "mix", "push", "sort", "setkey", "objassign", "assign_each"):
             return True
         if m is None:
             return False
@@ -876,15 +1196,100 @@ class C07(Prop):
     def sample(self, case, obs):
         outs = self.outs(obs)
         return {"shape": case["shape"], "template": tpl_ast(case["nodes"]["t"]), "data": d_plain(tuplify(case["data"])),
-                "history": [{"render": p["render"], "engine": p.get("on", 2),
-                             "data": "same" if p["data"] == case["data"] else "other"} for p in case["prefix"]],
+                "template_path": t_path(case),
+                "siblings": {n: tpl_ast(v) for n, v in list(case.get("siblings", {}).items())[:2]},
+                "listing": {"main": obs.get("main"), "other": obs.get("other")},
+                "history": [self.req_plain(case, p) for p in case["prefix"]],
+                "late": [self.req_plain(case, p) for p in case.get("late", [])],
+                "kept_first": bool(case.get("hold_first")), "read_seed": case.get("read_seed", 0),
+                "read_step": case.get("read_step", 0),
+                "kept_results_of_pair": len(obs.get("held", [])), "kept_results_of_other_renders": len(obs.get("pairs", [])),
                 "go_outputs_distinct": len({(r["class"], r["out"]) for r in outs}), "renders": len(outs),
                 "go_output": unhx(outs[0]["out"]).decode("utf-8", "replace")[:300] if outs[0]["class"] == "ok" else outs[0]["class"],
                 "data_untouched": obs["untouched"] and obs["prefix_untouched"] and obs["fresh_untouched"]}
 
+    @staticmethod
+    def req_plain(case, p):
+        how = ["read at once", "kept unread", "first %d bytes read, rest kept" % p.get("pre", 0)][p.get("hold", 0)]
+        if p.get("pair"):
+            return {"render": "t", "engine": p.get("on", 0), "data": "same", "result": how}
+        return {"render": p["render"], "engine": p.get("on", 2),
+                "data": "same" if p["data"] == case["data"] else "other", "result": how}
+
     def shrink(self, case):
+        # no siblings / fewer siblings / the plain location, fewer late renders, nothing kept, then:
         # shorter history, fewer other templates, smaller template, fewer top-level keys, fewer entries of m / o
+        sibs = case.get("siblings", {})
+        if sibs:
+            c = dict(case)
+            c["siblings"] = {}
+            yield c
+            if len(sibs) > 1:
+                for k in sibs:
+                    c = dict(case)
+                    c["siblings"] = {a: b_ for a, b_ in sibs.items() if a != k}
+                    yield c
+            for k, v in sibs.items():
+                tree = tpl_tree(v)
+                if tree is not None and len(tree) > 1:
+                    for cand in shrink_tree(tree):
+                        c = dict(case)
+                        c["siblings"] = dict(sibs)
+                        c["siblings"][k] = {"tree": cand}
+                        yield c
+            for k in sibs:
+                if "/" in k and k.rsplit("/", 1)[-1] not in sibs and not case.get("tdir"):
+                    c = dict(case)
+                    c["siblings"] = {(a.rsplit("/", 1)[-1] if a == k else a): b_ for a, b_ in sibs.items()}
+                    yield c
+        if case.get("tdir") and all(k.startswith(case["tdir"] + "/") for k in sibs):
+            c = dict(case)
+            c["tdir"] = ""
+            c["siblings"] = {k[len(case["tdir"]) + 1:]: v for k, v in sibs.items()}
+            yield c
+        late = case.get("late", [])
+        if late:
+            c = dict(case)
+            c["late"] = []
+            yield c
+            for i in range(len(late)):
+                c = dict(case)
+                c["late"] = late[:i] + late[i + 1:]
+                yield c
+        if case.get("hold_first"):
+            c = dict(case)
+            c["hold_first"] = False
+            yield c
+        for key in ("prefix", "late"):
+            for i, p in enumerate(case.get(key, [])):
+                if p.get("hold"):
+                    c = dict(case)
+                    c[key] = list(case[key])
+                    c[key][i] = dict(p, hold=0, pre=0)
+                    yield c
+                elif p.get("on"):
+                    c = dict(case)
+                    c[key] = list(case[key])
+                    c[key][i] = dict(p, on=0)
+                    yield c
+        if case.get("read_step"):
+            c = dict(case)
+            c["read_step"] = 0
+            yield c
+        if case.get("read_seed"):
+            c = dict(case)
+            c["read_seed"] = 0
+            yield c
         n = len(case["prefix"])
+        if n:
+            c = dict(case)
+            c["prefix"] = []
+            yield c
+        used0 = {p["render"] for p in case["prefix"] + case.get("late", []) if not p.get("pair")} | {"t"}
+        if any(k not in used0 for k in case["nodes"]):
+            c = dict(case)
+            c["nodes"] = {a: b_ for a, b_ in case["nodes"].items() if a in used0}
+            yield c
         if n > 4:
             for c_ in (case["prefix"][:n // 2], case["prefix"][n // 2:]):
                 c = dict(case)
@@ -894,7 +1299,7 @@ class C07(Prop):
             c = dict(case)
             c["prefix"] = case["prefix"][:i] + case["prefix"][i + 1:]
             yield c
-        used = {p["render"] for p in case["prefix"]} | {"t"}
+        used = {p["render"] for p in case["prefix"] + case.get("late", []) if not p.get("pair")} | {"t"}
         for n_ in case["nodes"]:
             if n_ not in used:
                 c = dict(case)
@@ -942,8 +1347,8 @@ class C07(Prop):
                     yield c
         # smaller data in the history renders
         for pi_, p in enumerate(case["prefix"]):
-            pd = p["data"]
-            if pd[0] != 'map':
+            pd = p.get("data")
+            if pd is None or pd[0] != 'map':
                 continue
             ptop = pd[1]
             for i, (k, v) in enumerate(ptop):
@@ -967,7 +1372,13 @@ class C07(Prop):
              "history_same_template_other_data": 0, "history_other_engine": 0,
              "state_building_templates_with_history_of_same_template_other_data": 0,
              "go_exec_error": 0, "first_letter_collisions": 0,
-             "renders_per_case": FULL_RENDERS + FRESH_PROCESSES, "processes_per_case": 1 + FRESH_PROCESSES}
+             "renders_read_at_once_per_case": FULL_RENDERS + FRESH_PROCESSES, "processes_per_case": 1 + FRESH_PROCESSES,
+             "template_in_subdirectory": 0, "with_siblings": 0, "sibling_files": 0,
+             "siblings_defining_a_mixin_name_the_template_uses": 0, "sibling_in_other_directory": 0,
+             "listed_before_all_siblings_and_after_all_siblings": 0,
+             "kept_results_of_the_pair": 0, "kept_results_of_other_renders": 0, "partly_read_then_kept": 0,
+             "cases_with_kept_result": 0, "late_renders": 0, "read_order": {"oldest_first": 0, "newest_first": 0,
+                                                                            "permuted": 0}, "read_round_robin": 0}
         for c, o in zip(cases, obss):
             d["shape"][c["shape"][0]] = d["shape"].get(c["shape"][0], 0) + 1
             data = tuplify(c["data"])
@@ -990,12 +1401,38 @@ class C07(Prop):
             d["with_history"] += bool(h)
             d["history_renders"] += len(h)
             d["history_len"]["0" if not h else "1-4" if len(h) <= 4 else "5-12" if len(h) <= 12 else "13+"] += 1
-            same_other = any(p["render"] == "t" and p["data"] != c["data"] for p in h)
+            same_other = any(not p.get("pair") and p["render"] == "t" and p["data"] != c["data"] for p in h)
             d["history_same_template_other_data"] += same_other
             d["history_other_engine"] += any(p.get("on", 2) != 2 for p in h)
             d["state_building_templates_with_history_of_same_template_other_data"] += (
                 same_other and c["shape"][0] in TREE_FAMILIES)
             d["go_exec_error"] += any(r["class"] != "ok" for r in self.outs(o))
+            sibs = c.get("siblings", {})
+            d["template_in_subdirectory"] += bool(c.get("tdir"))
+            d["with_siblings"] += bool(sibs)
+            d["sibling_files"] += len(sibs)
+            tree = tpl_tree(c["nodes"]["t"])
+            mine = set(tree_mixin_names(tree)) if tree is not None else set()
+            d["siblings_defining_a_mixin_name_the_template_uses"] += any(
+                mine & {n[1] for n in (tpl_tree(v) or []) if n[0] == 'mixin'} for v in sibs.values())
+            tdir = c.get("tdir") or ""
+            d["sibling_in_other_directory"] += any(k.rsplit("/", 1)[0] != tdir if "/" in k else bool(tdir) for k in sibs)
+            if sibs and "main" in o:
+                d["listed_before_all_siblings_and_after_all_siblings"] += bool(
+                    (o["main"]["t_before_all"] and o["other"]["t_after_all"])
+                    or (o["main"]["t_after_all"] and o["other"]["t_before_all"]))
+            reqs = list(h) + list(c.get("late", []))
+            d["late_renders"] += len(c.get("late", []))
+            kp = bool(c.get("hold_first")) + sum(1 for p in reqs if p.get("pair") and p.get("hold"))
+            ko = sum(1 for p in reqs if not p.get("pair") and p.get("hold"))
+            d["kept_results_of_the_pair"] += kp
+            d["kept_results_of_other_renders"] += ko
+            d["partly_read_then_kept"] += sum(1 for p in reqs if p.get("hold") == 2)
+            d["cases_with_kept_result"] += bool(kp or ko)
+            if kp or ko:
+                rs = c.get("read_seed", 0)
+                d["read_order"]["oldest_first" if rs == 0 else "newest_first" if rs == 1 else "permuted"] += 1
+                d["read_round_robin"] += bool(c.get("read_step"))
         return d
 
 
